@@ -39,9 +39,19 @@ class Pair(Node):
 
 
 @dataclass
+class Block(Node):
+    uid: int = field(init=False, default=0, repr=False, compare=False)   # declared BEFORE the constructor's parameters
+    body: Node = None
+    items: list[Node] = field(default_factory=list)
+
+    def __post_init__(self):
+        self.uid = 7
+
+
+@dataclass
 class Top:
     body: Node
     seen: list[Node] = field(init=False, default_factory=list, repr=False, compare=False)
 
 
-GRAMMARS = [([Lit, Memo, Pair], Node), ([Lit, Memo], Node), ([Lit, Memo, Pair, Top], Top)]
+GRAMMARS = [([Lit, Memo, Pair], Node), ([Lit, Memo], Node), ([Lit, Memo, Pair, Top], Top), ([Lit, Block, Pair], Node)]
